@@ -252,6 +252,42 @@ func (w *Workspace) UpdateFile(path, content string) {
 	if !sameStringSlice(oldIncludes, fileIndex.Includes) {
 		w.refreshIncludeTreeLocked()
 	}
+	w.rebuildFileOrderLocked()
+}
+
+// rebuildFileOrderLocked gives the included files the order a fresh load gives them: depth
+// first through the include directives of each file, every file once. The order decides
+// which declaration wins when several files declare the same commodity format.
+func (w *Workspace) rebuildFileOrderLocked() {
+	if w.resolved == nil || w.rootJournalPath == "" {
+		return
+	}
+
+	visited := map[string]bool{w.rootJournalPath: true}
+	order := make([]string, 0, len(w.resolved.Files))
+	var walk func(path string)
+	walk = func(path string) {
+		for _, inc := range w.includeGraph[path] {
+			if visited[inc] {
+				continue
+			}
+			if _, ok := w.resolved.Files[inc]; !ok {
+				continue
+			}
+			visited[inc] = true
+			order = append(order, inc)
+			walk(inc)
+		}
+	}
+	walk(w.rootJournalPath)
+
+	for _, path := range w.resolved.FileOrder {
+		if _, ok := w.resolved.Files[path]; ok && !visited[path] {
+			visited[path] = true
+			order = append(order, path)
+		}
+	}
+	w.resolved.FileOrder = order
 }
 
 func (w *Workspace) buildIndexFromResolvedLocked() {
